@@ -126,7 +126,15 @@ def badTripleInSomeClass (packedToo : Bool) (nvars : Nat) (js : List (Nat × TE)
       -- (first seen with a full-width word, finding D18; it is the same arm for any width: the
       -- encoding re-partitions itself around whichever word it meets first, and the second word
       -- then meets a span instead of the first word)
-      hasPacked && pf.any (fun b => MergeLaws.nsWord b && pf.any (fun c => MergeLaws.nsWord c && MergeLaws.conflicts b c))
+      -- … and likewise for two encodings with different boundaries plus a word: the packed arms of
+      -- `merge` are outside the fragment on which commutativity / associativity are proved, and
+      -- every order dependence seen in a class that mixes an encoding with two more pieces of
+      -- evidence is recorded under finding D18
+      let isWord := fun (e : TE) => match e with | .word _ _ => true | _ => false
+      let packedCount := (l.filter (fun e => match e with | .packed (_ :: _) _ => true | _ => false)).length
+      let wordCount := (l.filter isWord).length
+      hasPacked && (packedCount + wordCount ≥ 3 ||
+        pf.any (fun b => isWord b && pf.any (fun c => isWord c && MergeLaws.conflicts b c)))
   let rec go (fuel : Nat) (f : Forest) (next : Nat) : Bool :=
     match fuel with
     | 0 => false
